@@ -292,7 +292,11 @@ def parse_minimize_for_optimal(minimize):
     elif minimize == "write":
         return compute_con_cost_write
 
-    minimize_finder = re.compile(r"(flops|size|write|combo|limit)-*(\d*)")
+    # n.b. the factor might be formatted as a float, e.g. "combo-32.0", as
+    # produced by ``Objective.get_dynamic_programming_minimize``
+    minimize_finder = re.compile(
+        r"(flops|size|write|combo|limit)-*(\d*\.?\d*)"
+    )
 
     # parse out a customized value for the combination factor
     match = minimize_finder.fullmatch(minimize)
